@@ -14,7 +14,8 @@ RULE = ("for each of 44 string enums (ruma-common, ruma-events, ruma-state-res):
         "From<&str> and From<String>, printed with AsRef/Display/to_string, (de)serialized with serde and "
         "re-converted; all pairs of converted values are compared with == and cmp; for 23 enums "
         "the unit variants are also enumerated in the adapter and their printed forms compared "
-        "with the spec table. evaluations = oracle judgements; distinct_nontrivial = distinct "
+        "with the spec table. m.room.message msgtypes (a tagged-enum discriminator): spec-shaped contents, near-miss and "
+        "unknown types, in plain and escaped JSON spellings, must be reported and re-serialized unchanged. evaluations = oracle judgements; distinct_nontrivial = distinct "
         "(enum, string) pairs that are listed spellings, aliases, wildcard forms or near-misses")
 ASSUMPTIONS = ["spec spellings / declared aliases transcribed in vt/ref/enums_table.py",
                "'ordering agrees with the string form' is demanded as string order only for enums "
@@ -31,7 +32,7 @@ def shards(tier, n):
 
 
 def floors(tier):
-    return {"strings": 8000, "listed_spellings": 200, "pairs_compared": 100000, "variants_checked": 50,
+    return {"strings": 8000, "listed_spellings": 200, "pairs_compared": 100000, "variants_checked": 50, "msgtype_texts": 500,
             "_distinct_nontrivial": 5000}
 
 
@@ -136,10 +137,48 @@ def judge_enum(ctx, name, spec, strings, tags, reply, cmd):
                           {"enum": name, "variants": got, "spec": sorted(listed)}, cmd)
 
 
+def msgtypes(ctx, w):
+    """message types: known ones with spec-shaped content, near-misses and unknown ones with a body, each in
+    plain and in escaped JSON spellings; the typed value must report and re-serialize the same string"""
+    from ..gen import events as ge
+    rng, rep = ctx.rng, ctx.rep
+    items = []
+    for _ in range(40 if ctx.tier == "quick" else 3000):
+        content, _k = ge.message_content(rng)
+        content = {k: v for k, v in content.items() if not k.startswith("m.")}      # no relations: only the type matters here
+        items.append((content["msgtype"], content))
+        for s in near_misses(rng, content["msgtype"])[:3] + [jsongen.rand_string(rng, 8), "org.example.\"quoted\"", "a\\b", "tab\there", "caf\u00e9", ""]:
+            items.append((s, {"msgtype": s, "body": "b"}))
+    texts, metas = [], []
+    for s, c in items:
+        for style in (None, "escape_all", "random"):
+            try:
+                texts.append(jsongen.render(c, rng if style else None, shuffle=bool(style), style=style if style == "escape_all" else None))
+            except TypeError:
+                continue
+            metas.append((s, style))
+    for i in range(0, len(texts), 200):
+        cmd = {"op": "msgtype_conv", "texts": texts[i:i + 200]}
+        r = w.call(cmd)
+        if handle_crash(rep, r, cmd, context="msgtype"):
+            continue
+        for (s, style), text, it in zip(metas[i:i + 200], texts[i:i + 200], r["ok"]):
+            rep.count("msgtype_texts")
+            rep.judged()
+            rep.case(h64("msgtype", text))
+            replay = {"op": "msgtype_conv", "texts": [text]}
+            if "ok" not in it:
+                rep.violation("msgtype_rejected", "%r:%s" % (s, style), {"msgtype": s, "spelling": style, "text": text[:600], "error": it.get("err")}, replay)
+            elif it["ok"]["msgtype"] != s or it["ok"]["serialized_msgtype"] != s:
+                rep.violation("msgtype_altered", "%r:%s" % (s, style), {"msgtype": s, "spelling": style, "got": it["ok"]}, replay)
+
+
 def shard(ctx):
     rng = ctx.rng
     rep = ctx.rep
     w = ctx.worker("rel")
+    if ctx.shard == 0:
+        msgtypes(ctx, w)
     names = sorted(ENUMS)
     all_spellings = sorted({s for e in ENUMS.values() for s in e["spellings"]})
     first = True
